@@ -103,6 +103,9 @@ pub fn hayson_roundtrip(v: &V) -> Verdict {
         Ok(Some(Ok(back))) => same(v, &from_lib(&back)).map_err(|d| ("typed-mismatch".to_string(), d))?,
         Ok(None) => {}
     }
+    // every typed entry point (from_str / from_slice / from_reader::<T>, Option<T>, Vec<T>
+    // element, from_value::<T> with sorted members) on the emitted text
+    super::c05::typed_decode_agrees(&s, v, true).map_err(|(st, d)| (st.replace("d2-", ""), d))?;
     Ok(())
 }
 
@@ -128,7 +131,7 @@ fn string_positions(s: &str) -> Vec<V> {
 
 pub fn run(tier: Tier) -> i32 {
     let mut run = Run::new("C02", tier, "exploration");
-    run.rule = "every well-formed value of Σ and U through to_string|to_vec|to_value x from_str|from_slice|from_value for Value and to_string/from_str for each typed value implementing both traits; component-wise oracle (absent meta ≡ empty meta); non-trivial as C01".into();
+    run.rule = "every well-formed value of Σ and U through to_string|to_vec|to_value x from_str|from_slice|from_value for Value and to_string/from_str for each typed value implementing both traits; every scalar of Σ and the kind-complete pool also embedded in a user's own serde type (Option / Vec / BTreeMap / tuple fields of Value and of each typed value: to_string, to_value, member-sorted text, from_str, from_value, from_slice); component-wise oracle (absent meta ≡ empty meta); non-trivial as C01".into();
     run.assume("component-wise `same` (numbers numerically equal or both NaN) is the intended equality");
     run.assume("serde_json is trusted as the JSON text layer");
     crate::engine::quiet_panics();
@@ -154,6 +157,19 @@ pub fn run(tier: Tier) -> i32 {
     });
     run.absorb(l);
 
+    // typed values embedded in a user's own serde type (Option / Vec / map / tuple fields)
+    let scal = u::scalars(Tier::Quick);
+    let l = par_for(scal.len(), |i, local| {
+        super::common::check_value_as(&scal[i], local, true, "user-record", &user_record_roundtrip);
+        local.count("user-records");
+    });
+    run.absorb(l);
+    let conts: Vec<V> = super::c01::history_pool();
+    let l = par_for(conts.len(), |i, local| {
+        super::common::check_value_as(&conts[i], local, true, "user-record", &user_record_roundtrip);
+        local.count("user-records");
+    });
+    run.absorb(l);
     let pool = super::c01::history_pool();
     let l = super::common::history_pairs("hayson-codec", &pool, &hayson_observation, &|v: &V| to_json(v));
     run.absorb(l);
@@ -258,5 +274,121 @@ pub fn replay(case: &J) -> Verdict {
         let after = hayson_observation(&v);
         return if alone == after { Ok(()) } else { Err(("history-changes-output:hayson-codec".into(), format!("alone {alone}, after {after}"))) };
     }
+    if case["oracle"] == "user-record" {
+        return replay_value(case, &user_record_roundtrip);
+    }
     replay_value(case, &hayson_roundtrip)
+}
+
+// ------------------------------------------------------------------------------ typed values inside user types
+
+/// A user's own serde type that embeds the typed values the way applications do (Option, Vec,
+/// map, tuple fields): serde drives the typed Serialize / Deserialize impls through different
+/// entry points than a bare `Value` (visit_some, sequence elements, map values, newtype paths).
+#[derive(serde::Serialize, serde::Deserialize, Debug)]
+struct UserRecord {
+    any: Value,
+    opt_any: Option<Value>,
+    list: Vec<Value>,
+    map: std::collections::BTreeMap<String, Value>,
+    pair: (Value, Value),
+    number: Option<Number>,
+    numbers: Vec<Number>,
+    uri: Option<Uri>,
+    reference: Option<Ref>,
+    refs: Vec<Ref>,
+    symbol: Option<Symbol>,
+    coord: Option<Coord>,
+    xstr: Option<XStr>,
+    date: Option<Date>,
+    time: Option<Time>,
+    ts: Option<DateTime>,
+    tss: Vec<DateTime>,
+    dict: Option<Dict>,
+    grid: Option<Grid>,
+    #[serde(default)]
+    missing: Option<Number>,
+}
+
+fn user_record_of(v: &Value) -> UserRecord {
+    macro_rules! pick {
+        ($p:path) => {
+            match v {
+                $p(x) => Some(x.clone()),
+                _ => None,
+            }
+        };
+    }
+    UserRecord {
+        any: v.clone(),
+        opt_any: Some(v.clone()),
+        list: vec![v.clone(), Value::Null, v.clone()],
+        map: [("k".to_string(), v.clone()), ("val".to_string(), v.clone())].into_iter().collect(),
+        pair: (v.clone(), Value::make_marker()),
+        number: pick!(Value::Number),
+        numbers: pick!(Value::Number).into_iter().flat_map(|n| [n, n]).collect(),
+        uri: pick!(Value::Uri),
+        reference: pick!(Value::Ref),
+        refs: pick!(Value::Ref).into_iter().flat_map(|r| [r.clone(), r]).collect(),
+        symbol: pick!(Value::Symbol),
+        coord: pick!(Value::Coord),
+        xstr: pick!(Value::XStr),
+        date: pick!(Value::Date),
+        time: pick!(Value::Time),
+        ts: pick!(Value::DateTime),
+        tss: pick!(Value::DateTime).into_iter().flat_map(|d| [d.clone(), d]).collect(),
+        dict: pick!(Value::Dict),
+        grid: pick!(Value::Grid),
+        missing: None,
+    }
+}
+
+/// the typed values of a user record as one model value (for the component-wise comparison)
+fn user_record_model(r: &UserRecord) -> V {
+    let opt = |v: Option<Value>| v.map(|x| from_lib(&x)).unwrap_or(V::Null);
+    V::List(vec![
+        from_lib(&r.any),
+        opt(r.opt_any.clone()),
+        V::List(r.list.iter().map(from_lib).collect()),
+        V::List(r.map.values().map(from_lib).collect()),
+        from_lib(&r.pair.0),
+        opt(r.number.map(Value::Number)),
+        V::List(r.numbers.iter().map(|n| from_lib(&Value::Number(*n))).collect()),
+        opt(r.uri.clone().map(Value::Uri)),
+        opt(r.reference.clone().map(Value::Ref)),
+        V::List(r.refs.iter().map(|x| from_lib(&Value::Ref(x.clone()))).collect()),
+        opt(r.symbol.clone().map(Value::Symbol)),
+        opt(r.coord.map(Value::Coord)),
+        opt(r.xstr.clone().map(Value::XStr)),
+        opt(r.date.map(Value::Date)),
+        opt(r.time.map(Value::Time)),
+        opt(r.ts.clone().map(Value::DateTime)),
+        V::List(r.tss.iter().map(|x| from_lib(&Value::DateTime(x.clone()))).collect()),
+        opt(r.dict.clone().map(Value::Dict)),
+        opt(r.grid.clone().map(Value::Grid)),
+        opt(r.missing.map(Value::Number)),
+    ])
+}
+
+/// a value embedded in a user record survives to_string/from_str, to_value/from_value and the
+/// member-sorted text
+pub fn user_record_roundtrip(v: &V) -> Verdict {
+    let rec = user_record_of(&to_lib(v));
+    let want = user_record_model(&rec);
+    let text = guarded(|| serde_json::to_string(&rec)).map_err(|p| ("user-record-encode-panic".to_string(), p))?.map_err(|e| ("user-record-encode-error".to_string(), e.to_string()))?;
+    let tree = guarded(|| serde_json::to_value(&rec)).map_err(|p| ("user-record-encode-panic".to_string(), p))?.map_err(|e| ("user-record-encode-error".to_string(), e.to_string()))?;
+    let backs: Vec<(&str, Result<Result<UserRecord, serde_json::Error>, String>)> = vec![
+        ("from_str", guarded(|| serde_json::from_str::<UserRecord>(&text))),
+        ("from_value", guarded(|| serde_json::from_value::<UserRecord>(tree.clone()))),
+        ("from_str(sorted members)", guarded(|| serde_json::from_str::<UserRecord>(&tree.to_string()))),
+        ("from_slice", guarded(|| serde_json::from_slice::<UserRecord>(text.as_bytes()))),
+    ];
+    for (how, b) in backs {
+        match b {
+            Err(p) => return Err(("user-record-decode-panic".into(), format!("{how}: {p}"))),
+            Ok(Err(e)) => return Err(("user-record-decode-error".into(), format!("{how}: {e}; text={}", text.chars().take(400).collect::<String>()))),
+            Ok(Ok(back)) => same(&want, &user_record_model(&back)).map_err(|d| ("user-record-mismatch".to_string(), format!("{how}: {d}; text={}", text.chars().take(400).collect::<String>())))?,
+        }
+    }
+    Ok(())
 }
